@@ -40,6 +40,8 @@ def default_inline(f, caller, nargs=0, kwnames=()):
     if f.cls is None and f.parent is None and f.module == caller.module and f.name.startswith('_') \
             and not f.name.startswith('__'):
         return True     # private module-level helper of the same module
+    if f.parent is caller and not f.is_generator and caller.is_contextmanager:
+        return True     # local closure of a context manager (e.g. a shared epilogue of the transaction manager)
     if f.cls != caller.cls or f.cls is None:
         return False
     if f.is_property:
@@ -53,7 +55,7 @@ def default_inline(f, caller, nargs=0, kwnames=()):
 
 class St:
     __slots__ = ('env', 'facts', 'trace', 'txn', 'handlers', 'ntxn', 'nlist', 'fn', 'stack', 'frames', 'selfenv',
-                 'excs')
+                 'excs', 'sites')
 
     def __init__(self, fn):
         self.env = {}
@@ -68,6 +70,7 @@ class St:
         self.frames = []
         self.selfenv = {}
         self.excs = ()
+        self.sites = ()
 
     def fork(self):
         s = St.__new__(St)
@@ -83,10 +86,25 @@ class St:
         s.frames = [(f, dict(e), h) for f, e, h in self.frames]
         s.selfenv = dict(self.selfenv)
         s.excs = self.excs
+        s.sites = self.sites
         return s
 
-    def push_frame(self, f, env):
+    def rebind(self, old, new):
+        """A mutable container was updated in place: every name (and self attribute) holding it sees the new contents."""
+        for name, v in list(self.env.items()):
+            if v == old:
+                self.env[name] = new
+        for k, v in list(self.selfenv.items()):
+            if v == old:
+                self.selfenv[k] = new
+        for fr in self.frames:
+            for name, v in list(fr[1].items()):
+                if v == old:
+                    fr[1][name] = new
+
+    def push_frame(self, f, env, site=None):
         self.frames.append((self.fn, self.env, self.handlers))
+        self.sites = self.sites + (site,)
         self.fn = f
         self.env = env
         self.stack = self.stack + (f,)
@@ -94,6 +112,7 @@ class St:
     def pop_frame(self):
         self.fn, self.env, self.handlers = self.frames.pop()
         self.stack = self.stack[:-1]
+        self.sites = self.sites[:-1]
 
 
 class Path:
@@ -285,12 +304,11 @@ class Interp(ExprMixin, CallMixin):
                     items = list(base.a[0])
                     try:
                         items[idx.val] = v
-                        newv = V('list', tuple(items), base.a[1])
-                        for name, old in list(s.env.items()):
-                            if old == base:
-                                s.env[name] = newv
+                        s.rebind(base, V('list', tuple(items), base.a[1]))
                     except IndexError:
                         pass
+                if base.k == 'mdict':
+                    s.rebind(base, V('mdict', base.a[0] + ((idx, v),), base.a[1]))
                 self.emit(s, 'SETITEM', node, base=base, idx=idx, val=v)
                 res.append(s)
             return res
@@ -341,6 +359,13 @@ class Interp(ExprMixin, CallMixin):
                 elif isinstance(t, ast.Name):
                     s.env.pop(t.id, None)
                     nxt.append(s)
+                elif isinstance(t, ast.Attribute):
+                    for base, s1 in self.eval(t.value, s):
+                        if isinstance(base, Raise):
+                            nxt.append(self._raise_out(base, s1))
+                            continue
+                        self.emit(s1, 'DELATTR', n, base=base, attr=t.attr)
+                        nxt.append(s1)
                 else:
                     nxt.append(s)
             res = nxt
@@ -449,6 +474,8 @@ class Interp(ExprMixin, CallMixin):
     def bind_loop_target(self, target, itv, st, iternode):
         if itv.k == 'rows':
             elem = V('row', itv.a[0])
+        elif itv.k in ('tuple', 'list') and len(itv.a[0]) == 1:
+            elem = itv.a[0][0]
         elif itv.k == 'star':
             elem = V('elem', itv.a[0])
         else:
@@ -470,8 +497,13 @@ class Interp(ExprMixin, CallMixin):
                     if not isinstance(itv2, Raise):
                         itv = V('iterof', itv, itv2)
             nonempty = self.known_truth(itv, s)
+            if nonempty is None and itv.k == 'mcall' and itv.a[0] in ('items', 'keys', 'values') \
+                    and isinstance(itv.a[1], int) and itv.a[1] < len(s.trace):
+                recv = s.trace[itv.a[1]].d.get('recv')
+                if recv is not None:
+                    nonempty = self.known_truth(recv, s)     # a non-empty mapping has items
             if itv.k in ('tuple', 'list'):
-                nonempty = len(itv.a[0]) > 0 if itv.k == 'tuple' else nonempty
+                nonempty = len(itv.a[0]) > 0 if (itv.k == 'tuple' or itv.a[0]) else nonempty
             # zero iterations
             if nonempty is not True and self.opts.for_zero:
                 s0 = s.fork()
